@@ -135,7 +135,7 @@ pub fn record_fail(tag: &'static str) {
 /// several tags.
 #[macro_export]
 macro_rules! check {
-    ($c:expr, $tag:literal) => {{
+    ($c:expr, $tag:expr) => {{
         #[cfg(kani)]
         {
             assert!($c, $tag);
